@@ -84,7 +84,55 @@ def units(tier):
     U("limits", "h_limits", fns=[ALIASES[k] for k in ALIASES if k.startswith("lim_")], mode="IEEE",
       clause="numeric_limits<half> and HALF_* are the format's extremes and agree with the conversions")
     U("lemma.extremes", "h_lemma_extremes", mode="IEEE", clause="lemma: no finite half exceeds max(), none is below denorm_min()/min() (all patterns)")
-    return us
+    return us + hf_units(tier)
+
+
+HF_DRIVER = '''#include "halfFunction.h"
+struct VfHF { float operator() (half x) const; };   // declared only: an arbitrary pure function
+void usehf (VfHF f, half lo, half hi, float d, float p, float n, float q, half x, float &r) { halfFunction<float> t (f, lo, hi, d, p, n, q); r = t (x); }
+'''
+HF = {"hf_ctor": "halfFunction<float>::halfFunction(VfHF, half, half, float, float, float, float)", "hf_call": "halfFunction<float>::operator()(half) const"}
+
+
+def hf_units(tier):
+    """halfFunction<float>: constructor loop under a loop contract (harness/c03_hf.c)"""
+    import re
+    from ..core import Undecided
+    # IMATH_HAVE_LARGE_STACK: the table is a member array (the configuration without operator new[]); bit-shift conversion (no table pointer)
+    ex = extract.run_extraction("c03hfx", HF_DRIVER, sorted(HF.values()), outdir=GEN, diff=False, defines=["IMATH_HAVE_LARGE_STACK", "IMATH_HALF_NO_LOOKUP_TABLE"],
+                                extern_funcs={"VfHF::operator()": "cxx2c_vfhf"})
+    txt = "\n".join("#define F_%s %s" % (a, ex.names[sp]) for a, sp in HF.items()) + "\n"
+    p = os.path.join(GEN, "c03hf_names.h")
+    if not os.path.exists(p) or open(p).read() != txt:
+        open(p, "w").write(txt)
+    src = open(ex.c_path).read()
+    fn = ex.names[HF["hf_ctor"]]
+    i = src.find("void %s(" % fn)
+    j = src.find("\n}\n", i)
+    body = src[i:j]
+    loop = "for (; (i < ((1 << 16))); (i++))"
+    if i < 0 or body.count(loop) != 1 or body.count("for (") != 1:
+        raise Undecided("extraction: halfFunction's constructor no longer has the single loop 'for (int i = 0; i < (1 << 16); i++)'")
+    temps = sorted(set(re.findall(r"\b(_t\d+)\s*=", body[body.find(loop):])), key=lambda t: int(t[2:]))
+    inj = (loop + "\n"
+           "            __CPROVER_assigns (i, %s__CPROVER_object_whole (this_))\n"
+           "            __CPROVER_loop_invariant (0 <= i && i <= 65536)\n"
+           "            __CPROVER_loop_invariant (!(vf_gk < (unsigned long) i) || *(unsigned int *) &this_->_lut[vf_gk] == vf_ge)\n"
+           "            __CPROVER_decreases (65536 - i)") % "".join(t + ", " for t in temps)
+    lc = src[:i] + body.replace(loop, inj) + src[j:]
+    lc = lc.replace('#include "c03hfx.h"', "")
+    lp = os.path.join(GEN, "c03hf_lc.c")
+    if not os.path.exists(lp) or open(lp).read() != lc:
+        open(lp, "w").write(lc)
+    EXTRACTION["c03hfx"] = {"functions": len(ex.order), "differential": "not run (f is declared only); the half members it calls are those of c03x",
+                            "loop_contract": "inserted into the constructor's single for-loop on every run (must-fire)"}
+    HH = os.path.join(VERIF, "harness", "c03_hf.c")
+    return [Unit("c03.halfFunction", HH, "h_hf", includes=[GEN], backend=os.environ.get("C03HF_BE", "sat"), mode="BIT", functions=sorted(HF.values()), no_checks=True, timeout=900, loop_contracts=True,
+                 replay={"src": os.path.join(VERIF, "harness", "c03_hf_replay.cpp"), "lang": "c++", "includes": [os.path.join(REPO, "src/Imath")], "cxx": [os.path.join(REPO, "src/Imath/half.cpp")]},
+                 defines=["IMATH_HALF_NO_LOOKUP_TABLE"], cbmc_flags=["--no-signed-overflow-check", "--object-bits", "10", "--unwind", "12"] + os.environ.get("C03HF_FLAGS", "--arrays-uf-always").split(),
+                 clause="halfFunction<float>: every table entry is f(x) for finite x in [domainMin, domainMax] and the designated default / +inf / -inf / NaN value otherwise; operator() reads the entry (loop contract with ghost index: all 65536 entries, no unwinding)",
+                 assumptions=["f is an uninterpreted pure function of its argument's bits", "configuration IMATH_HAVE_LARGE_STACK (table as a member array; the other configuration differs by one operator new[])",
+                              "the loop contract text is inserted into the extracted C by c03.py (the repository file is not edited)"])]
 
 
 def extra_coverage(units, tier):
@@ -93,7 +141,7 @@ def extra_coverage(units, tier):
 
 NOT_COVERED = [
     "operator<< / operator>> text round trip (libstdc++ float formatting and parsing are outside the verifier)",
-    "halfFunction table constructor (65536-iteration fill): not under contract in this revision",
+    "halfFunction in the configuration without IMATH_HAVE_LARGE_STACK (operator new[] / delete[] of the table)",
 ]
 ASSUMPTIONS = ["cxx2c extraction rules; differential validation against the real C++",
                "x86intrin.h stubbed (F16C path not modelled)"]
